@@ -70,7 +70,7 @@ class DefaultFormatter(BaseFormatter):
             if isinstance(magnitude, ndarray) and magnitude.ndim > 0:
                 # Use custom ndarray text formatting--need to handle scalars differently
                 # since they don't respond to printoptions
-                with np.printoptions(formatter={"float_kind": format_number}):
+                with np.printoptions(formatter={"float_kind": format_number, "int_kind": format_number}):
                     mstr = format(magnitude).replace("\n", "")
             else:
                 mstr = format_number(magnitude)
@@ -192,7 +192,7 @@ class CompactFormatter(BaseFormatter):
             if isinstance(magnitude, ndarray) and magnitude.ndim > 0:
                 # Use custom ndarray text formatting--need to handle scalars differently
                 # since they don't respond to printoptions
-                with np.printoptions(formatter={"float_kind": format_number}):
+                with np.printoptions(formatter={"float_kind": format_number, "int_kind": format_number}):
                     mstr = format(magnitude).replace("\n", "")
             else:
                 mstr = format_number(magnitude)
@@ -296,7 +296,7 @@ class PrettyFormatter(BaseFormatter):
             if isinstance(magnitude, ndarray) and magnitude.ndim > 0:
                 # Use custom ndarray text formatting--need to handle scalars differently
                 # since they don't respond to printoptions
-                with np.printoptions(formatter={"float_kind": format_number}):
+                with np.printoptions(formatter={"float_kind": format_number, "int_kind": format_number}):
                     mstr = format(magnitude).replace("\n", "")
             else:
                 mstr = format_number(magnitude)
